@@ -8,7 +8,8 @@
    rewritten basin, ds.features_scalar and ds[feat]) are universally
    quantified function arguments. *)
 From Coq Require Import ZArith List Bool.
-From Verif Require Import Model.C08 Proofs.C08 Proofs.C08_file Proofs.C08_basins.
+From Verif Require Import Model.C08 Proofs.C08 Proofs.C08_file Proofs.C08_basins
+  Proofs.C08_more.
 Import ListNotations.
 Open Scope Z_scope.
 
@@ -98,6 +99,52 @@ Theorem C08_strip_basins_preserves_features :
 Proof. exact copy_all_strip_basins_preserves_feature. Qed.
 Print Assumptions C08_strip_basins_preserves_features.
 
+(* The same for every selection (condense uses "scalar", rtdc_copy accepts a
+   list): what is selected is preserved; [node_same] includes the dtype. *)
+Theorem C08_copy_preserves_selected_features :
+  forall (fexists fscalar fbmap defective : Z -> bool)
+         (rekey : Z -> list Z -> Z) (sel : fsel)
+         (inc_basins inc_logs inc_tables : bool)
+         (f : h5file) (name : Z) (n : node),
+    In name (feature_iter fscalar fbmap sel inc_basins f) ->
+    assoc name (f_events f) = Some n ->
+    fexists name = true -> defective name = false -> node_wf n ->
+    exists n',
+      assoc name (f_events (rtdc_copy fexists fscalar fbmap defective rekey
+                                      sel inc_basins inc_logs inc_tables f))
+      = Some n'
+      /\ node_same n n'.
+Proof. exact copy_preserves_selected_feature. Qed.
+Print Assumptions C08_copy_preserves_selected_features.
+
+Theorem C08_copy_scalar_preserves_features :
+  forall (fexists fscalar fbmap defective : Z -> bool)
+         (rekey : Z -> list Z -> Z) (inc_logs inc_tables : bool)
+         (f : h5file) (name : Z) (n : node),
+    assoc name (f_events f) = Some n -> fscalar name = true ->
+    fexists name = true -> defective name = false -> node_wf n ->
+    exists n',
+      assoc name (f_events (rtdc_copy fexists fscalar fbmap defective rekey
+                                      FScalar true inc_logs inc_tables f))
+      = Some n'
+      /\ node_same n n'.
+Proof. exact copy_scalar_preserves_feature. Qed.
+Print Assumptions C08_copy_scalar_preserves_features.
+
+Theorem C08_copy_list_preserves_features :
+  forall (fexists fscalar fbmap defective : Z -> bool)
+         (rekey : Z -> list Z -> Z) (l : list Z) (inc_logs inc_tables : bool)
+         (f : h5file) (name : Z) (n : node),
+    In name l -> assoc name (f_events f) = Some n ->
+    fexists name = true -> defective name = false -> node_wf n ->
+    exists n',
+      assoc name (f_events (rtdc_copy fexists fscalar fbmap defective rekey
+                                      (FList l) true inc_logs inc_tables f))
+      = Some n'
+      /\ node_same n n'.
+Proof. exact copy_list_preserves_feature. Qed.
+Print Assumptions C08_copy_list_preserves_features.
+
 (* No selection invents a feature: whatever is in the output is the finished
    copy of a recognised, non-defective feature of the input. *)
 Theorem C08_copy_invents_no_feature :
@@ -118,13 +165,13 @@ Theorem C08_copy_preserves_internal_basin_data :
          (rekey : Z -> list Z -> Z) (sel : fsel) (inc_logs inc_tables : bool)
          (f : h5file) (name : Z) (d : dset),
     In name (feature_iter fscalar fbmap sel true f) ->
-    assoc name (f_bevents f) = Some d -> assoc name (f_events f) = None ->
+    assoc name (f_bevents f) = Some d ->
     fexists name = true -> wf_dset d ->
     exists d',
       assoc name (f_bevents (rtdc_copy fexists fscalar fbmap defective rekey
                                        sel true inc_logs inc_tables f))
       = Some d'
-      /\ content d' = content d.
+      /\ content d' = content d /\ same_dtype d d'.
 Proof. exact copy_preserves_basin_feature. Qed.
 Print Assumptions C08_copy_preserves_internal_basin_data.
 
@@ -185,6 +232,89 @@ Theorem C08_compress_keeps_logs :
     = Some (h5ds_copy true d).
 Proof. exact compress_keeps_logs. Qed.
 Print Assumptions C08_compress_keeps_logs.
+
+(* compress as a whole: it is the copy plus log bookkeeping; features are
+   preserved; the previous command log survives under its new name (the md5
+   name is not yet used: it is the md5 of the input file itself). *)
+Theorem C08_compress_is_copy_plus_logs :
+  forall (fexists fscalar fbmap defective : Z -> bool)
+         (rekey : Z -> list Z -> Z) (warned : bool) (f : h5file),
+    let c := compress fexists fscalar fbmap defective rekey warned f in
+    let g := rtdc_copy fexists fscalar fbmap defective rekey FAll true true
+                       true f in
+    f_events c = f_events g /\ f_bevents c = f_bevents g
+    /\ f_tables c = f_tables g /\ f_basins c = f_basins g
+    /\ f_attrs c = f_attrs f.
+Proof. exact compress_events. Qed.
+Print Assumptions C08_compress_is_copy_plus_logs.
+
+Theorem C08_compress_preserves_features :
+  forall (fexists fscalar fbmap defective : Z -> bool)
+         (rekey : Z -> list Z -> Z) (warned : bool)
+         (f : h5file) (name : Z) (n : node),
+    assoc name (f_events f) = Some n ->
+    fexists name = true -> defective name = false -> node_wf n ->
+    exists n',
+      assoc name (f_events (compress fexists fscalar fbmap defective rekey
+                                     warned f)) = Some n'
+      /\ node_same n n'.
+Proof. exact compress_preserves_feature. Qed.
+Print Assumptions C08_compress_preserves_features.
+
+Theorem C08_compress_renames_old_log :
+  forall (fexists fscalar fbmap defective : Z -> bool)
+         (rekey : Z -> list Z -> Z) (warned : bool) (f : h5file) (d : dset),
+    assoc L_CMD (f_logs f) = Some d -> assoc L_CMD_OLD (f_logs f) = None ->
+    assoc L_CMD_OLD (f_logs (compress fexists fscalar fbmap defective rekey
+                                      warned f))
+    = Some (h5ds_copy true d).
+Proof. exact compress_renames_old_log. Qed.
+Print Assumptions C08_compress_renames_old_log.
+
+(* The copy applied to its own output changes no data: same features, same
+   internal basin data, same logs, tables and metadata (exact equality, layout
+   included).  [defective2] is the marker evaluation on the first output; the
+   hypothesis (no feature of the output is marked) is checked by the harness
+   on every case. *)
+Theorem C08_second_copy_changes_no_data :
+  forall (fexists fscalar fbmap defective defective2 : Z -> bool)
+         (rekey : Z -> list Z -> Z) (inc_logs inc_tables : bool) (f : h5file),
+    let g := rtdc_copy fexists fscalar fbmap defective rekey FAll true
+                       inc_logs inc_tables f in
+    let h := rtdc_copy fexists fscalar fbmap defective2 rekey FAll true
+                       inc_logs inc_tables g in
+    (forall name, In name (map fst (f_events g)) -> defective2 name = false) ->
+    (forall name, assoc name (f_events h) = assoc name (f_events g))
+    /\ (forall name, assoc name (f_bevents h) = assoc name (f_bevents g))
+    /\ f_logs h = f_logs g /\ f_tables h = f_tables g /\ f_attrs h = f_attrs g.
+Proof. exact second_copy_changes_no_data. Qed.
+Print Assumptions C08_second_copy_changes_no_data.
+
+(* tdms2rtdc: which events are exported.  Only the first/last event can be
+   left out, and only if its image is empty and the option asks for it; the
+   exported values are the source values of the kept events, in order; with
+   nothing to skip every feature is exported unchanged (integer peak maxima
+   additionally go through the uint32 store, see the finding below). *)
+Theorem C08_tdms_drops_only_empty_boundary :
+  forall (n : Z) (si sf fe le : bool) (i : Z),
+    0 <= i < n -> ~ In i (tdms_kept n si sf fe le) ->
+    (i = 0 /\ si = true /\ fe = true) \/ (i = n - 1 /\ sf = true /\ le = true).
+Proof. exact tdms_drops_only_empty_boundary. Qed.
+Print Assumptions C08_tdms_drops_only_empty_boundary.
+
+Theorem C08_tdms_export_all :
+  forall (n : Z) (si sf fe le : bool) (vals : list elem),
+    Z.of_nat (length vals) = n -> si && fe = false -> sf && le = false ->
+    tdms_export (tdms_kept n si sf fe le) vals = vals.
+Proof. exact tdms_export_all. Qed.
+Print Assumptions C08_tdms_export_all.
+
+Theorem C08_tdms_export_values :
+  forall (kept : list Z) (vals : list elem) (j : nat),
+    (j < length kept)%nat ->
+    nth j (tdms_export kept vals) [] = nth (Z.to_nat (nth j kept 0)) vals [].
+Proof. exact tdms_export_values. Qed.
+Print Assumptions C08_tdms_export_values.
 
 (* condense: the selected feature set, and where each selected scalar feature
    ends up (the rtdc_copy copy, or ds[feat] stored by the writer). *)
@@ -267,6 +397,35 @@ Theorem C08_copy_invents_no_basin :
                          else b_feats bn).
 Proof. exact copy_invents_no_basin. Qed.
 Print Assumptions C08_copy_invents_no_basin.
+
+(* The defective-feature markers (fmt_hdf5/feat_defect.py), the [defective]
+   argument of the theorems above instantiated by the model [defective_code]:
+   a file never written by dclab, not from Shape-In 2.0.6/7 and without a
+   float32 time has no marker (so compress/repack/condense keep every
+   recognised feature of it); a file last written by dclab >= 0.48.3 has at
+   most the aspect and float32-time markers; the aspect marker is an exact
+   match of the software string. *)
+Theorem C08_unmarked_file_has_no_defective_feature :
+  forall (x : dfacts) (c : Z),
+    df_exact_aspect x = false -> df_last_dclab x = None ->
+    df_time_f32 x && df_has_frame x = false ->
+    defective_code x c = false.
+Proof. exact unmarked_file_has_no_defective_feature. Qed.
+Print Assumptions C08_unmarked_file_has_no_defective_feature.
+
+Theorem C08_recent_dclab_marks_only_aspect_and_f32_time :
+  forall (x : dfacts) (c : Z) (w : ver),
+    df_last_dclab x = Some w -> ver_ltb w (0, 48, 3) = false ->
+    defective_code x c = true ->
+    (c = D_ASPECT /\ df_exact_aspect x = true)
+    \/ (c = D_TIME /\ df_time_f32 x = true /\ df_has_frame x = true).
+Proof. exact recent_dclab_marks_only_aspect_and_f32_time. Qed.
+Print Assumptions C08_recent_dclab_marks_only_aspect_and_f32_time.
+
+Theorem C08_aspect_marker_is_exact :
+  forall x : dfacts, defective_code x D_ASPECT = df_exact_aspect x.
+Proof. exact aspect_marker_is_exact. Qed.
+Print Assumptions C08_aspect_marker_is_exact.
 
 (* ---- known findings ---------------------------------------------------- *)
 (* tdms2rtdc: fl?_max are stored as uint32, negative peak maxima of the .tdms
